@@ -238,6 +238,10 @@ func (u *Unit) discharge(o *Obligation, cfg *solverCfg, seq int) {
 			quickDone = true
 		}
 	}
+	if !quickDone && o.Short {
+		o.Result, o.Backend = "unknown", solvers[0].name
+		return
+	}
 	if !quickDone && o.Expect == "unsat" {
 		// attempt 0b: definitions of recursive spec functions the goal does not mention are dropped (their unfolding
 		// is a matching loop that can starve an otherwise easy goal; sound: fewer hypotheses)
